@@ -508,19 +508,17 @@ class C2Profile(ConfigBlock):
                 block_steps = collections.defaultdict(list)
                 for k, v in value:
                     if k in ("_HEADER", "_HOSTHEADER"):
-                        v = v.decode("latin-1")
-                        header, _, header_val = v.partition(": ")
+                        header, _, header_val = v.partition(b": ")
                         headers.append((header, header_val))
                     elif k == "_PARAMETER":
-                        v = v.decode("latin-1")
-                        param, _, param_val = v.partition("=")
+                        param, _, param_val = v.partition(b"=")
                         params.append((param, param_val))
                     elif k == "BUILD":
                         _build = v
                     elif v is True:
                         block_steps[_build].append(k.lower())
                     else:
-                        block_steps[_build].append((k.lower(), v.decode("latin-1")))
+                        block_steps[_build].append((k.lower(), v))
                 logger.debug(f"block_steps: {block_steps}")
                 if headers:
                     http_get_client._pair("header", headers)
@@ -537,20 +535,16 @@ class C2Profile(ConfigBlock):
                 block_steps = collections.defaultdict(list)
                 for k, v in value:
                     if k in ("_HEADER", "_HOSTHEADER"):
-                        v = v.decode("latin-1")
-                        header, _, header_val = v.partition(": ")
+                        header, _, header_val = v.partition(b": ")
                         headers.append((header, header_val))
                     elif k == "_PARAMETER":
-                        v = v.decode("latin-1")
-                        param, _, param_val = v.partition("=")
+                        param, _, param_val = v.partition(b"=")
                         params.append((param, param_val))
                     elif k == "BUILD":
                         _build = v
                     elif v is True:
                         block_steps[_build].append(k.lower())
                     else:
-                        # log.debug(f"{k} -> {v}")
-                        v = repr(v)[2:-1]
                         block_steps[_build].append((k.lower(), v))
                 logger.debug(f"block_steps: {block_steps}")
                 if headers:
